@@ -45,34 +45,34 @@ pub struct Obs {
 }
 
 impl Obs {
-    fn set(&self, k: &str, v: impl Into<String>) {
+    pub fn set(&self, k: &str, v: impl Into<String>) {
         self.results.lock().unwrap().insert(k.to_string(), v.into());
     }
-    fn append(&self, k: &str, v: impl std::fmt::Display) {
+    pub fn append(&self, k: &str, v: impl std::fmt::Display) {
         let mut g = self.results.lock().unwrap();
         let e = g.entry(k.to_string()).or_default();
         e.push_str(&format!("{v},"));
     }
-    fn get(&self, k: &str) -> Option<String> {
+    pub fn get(&self, k: &str) -> Option<String> {
         self.results.lock().unwrap().get(k).cloned()
     }
 }
 
-type Build = Box<dyn Fn() -> (Arc<Obs>, Vec<(String, Body)>) + Send + Sync>;
-type Expect = Box<dyn Fn(&Obs) -> Result<String, String> + Send + Sync>;
-type MayBlock = Box<dyn Fn(&Obs) -> Vec<&'static str> + Send + Sync>;
+pub type Build = Box<dyn Fn() -> (Arc<Obs>, Vec<(String, Body)>) + Send + Sync>;
+pub type Expect = Box<dyn Fn(&Obs) -> Result<String, String> + Send + Sync>;
+pub type MayBlock = Box<dyn Fn(&Obs) -> Vec<&'static str> + Send + Sync>;
 
-fn nobody() -> MayBlock {
+pub fn nobody() -> MayBlock {
     Box::new(|_| Vec::new())
 }
 
 pub struct Sc {
     pub name: &'static str,
-    build: Build,
+    pub build: Build,
     /// checks the reported results of a *completed* execution; returns an outcome label
-    expect: Expect,
+    pub expect: Expect,
     /// threads that may legitimately never finish, given what was observed (none by default)
-    may_block: MayBlock,
+    pub may_block: MayBlock,
 }
 
 impl Scenario for Sc {
@@ -103,7 +103,7 @@ impl Scenario for Sc {
     }
 }
 
-fn body(f: impl FnOnce(&Ctx) + Send + 'static) -> Body {
+pub fn body(f: impl FnOnce(&Ctx) + Send + 'static) -> Body {
     Box::new(f)
 }
 
@@ -115,7 +115,7 @@ fn any_ok() -> Expect {
     Box::new(|_| Ok("done".into()))
 }
 
-fn expect_eq(key: &'static str, allowed: &'static [&'static str]) -> Expect {
+pub fn expect_eq(key: &'static str, allowed: &'static [&'static str]) -> Expect {
     Box::new(move |o| {
         let v = o.get(key).unwrap_or_else(|| "<none>".into());
         if allowed.contains(&v.as_str()) { Ok(format!("{key}={v}")) } else { Err(format!("{key} = {v}, allowed {allowed:?}")) }
@@ -126,7 +126,7 @@ fn expect_eq(key: &'static str, allowed: &'static [&'static str]) -> Expect {
 // scenarios
 // ------------------------------------------------------------------------------------------
 
-fn pipe_cfg(window: u64, streams: u64) -> Cfg {
+pub fn pipe_cfg(window: u64, streams: u64) -> Cfg {
     let side = SideCfg { max_data: 1 << 20, bidi_local: window, bidi_remote: window, uni: window, streams_bidi: streams, streams_uni: streams };
     Cfg { client: side.clone(), server: side, cap: 1200, demand_concurrency: false, scripts: [vec![], vec![]], read_caps: vec![], max_packets: 0 }
 }
@@ -733,9 +733,13 @@ fn run_set(args: &Args, set: Vec<Sc>, level_note: &str) -> i32 {
 }
 
 pub fn run(args: &Args) -> i32 {
-    run_set(args, scenarios(), "a deadlock with every notifier finished and the awaited condition made true is judged a lost wake-up")
+    let mut set = scenarios();
+    set.extend(crate::c16b::more_scenarios());
+    run_set(args, set, "a deadlock with every notifier finished and the awaited condition made true is judged a lost wake-up")
 }
 
 pub fn run_c17a(args: &Args) -> i32 {
-    run_set(args, conn_state_scenarios(), "C17a: racing enter_handshaked / enter_closing / enter_draining with a terminated() waiter")
+    let mut set = conn_state_scenarios();
+    set.extend(crate::c16b::close_scenarios());
+    run_set(args, set, "C17a: racing enter_handshaked / enter_closing / enter_draining with a terminated() waiter")
 }
